@@ -120,3 +120,5 @@ package specs
 //@ assigns nothing
 //@ iface context.Context.Done
 //@ pure
+
+// ---- hashing ------------------------------------------------------------------------------------------
